@@ -61,7 +61,8 @@ def mini_line(r):
         elif t == "pb":
             tags[t] = r.choice(["", "19800229", "20011231"])
         else:
-            tags[t] = val(r)
+            # mostly short; now and then a value of several hundred characters (long names, comments)
+            tags[t] = val(r, r.choice([10, 10, 10, 10, 60, 200, 400]))
     parts = ["\x1emt" + r.choice(["rsl", "mpr", ""])]
     for t in MINI_TAGS:
         if t in tags:
